@@ -238,3 +238,156 @@ impl Prop for Selector {
 pub fn parts() -> Vec<Box<dyn DynPart>> {
     vec![Box::new(Gen::new(Selector, 300_000, 30_000_000))]
 }
+
+// ---------------------------------------------------------------------------------------
+// Part `node` (E3, one real DatacakeNode): membership updates interleaved with selections
+// through `DatacakeNode::select_nodes` (selector actor + its result cache).
+
+#[derive(Debug, Clone)]
+pub enum Step {
+    /// other members: id -> data centre index
+    Members(BTreeMap<u8, usize>),
+    Select(usize),
+}
+
+#[derive(Debug, Clone)]
+pub struct NodeCase {
+    pub steps: Vec<Step>,
+    pub seed: u64,
+}
+
+pub struct NodePart;
+
+fn node_addr(id: u8) -> SocketAddr {
+    ([10, 2, 0, id], 7000).into()
+}
+
+impl Prop for NodePart {
+    type Case = NodeCase;
+
+    fn id(&self) -> &'static str {
+        "C15"
+    }
+
+    fn part(&self) -> &'static str {
+        "node"
+    }
+
+    fn width(&self) -> usize {
+        96
+    }
+
+    fn shrink_budget(&self) -> usize {
+        800
+    }
+
+    fn gen(&self, src: &mut Src) -> NodeCase {
+        let n = 2 + src.below(14);
+        let mut cur: BTreeMap<u8, usize> = BTreeMap::new();
+        let mut steps = vec![];
+        for _ in 0..n {
+            if src.chance(2, 5) {
+                match src.weighted(&[4, 3, 2, 1]) {
+                    0 => {
+                        // some nodes join
+                        for _ in 0..1 + src.below(3) {
+                            let id = 2 + src.below(8) as u8;
+                            let dc = src.below(3);
+                            cur.entry(id).or_insert(dc);
+                        }
+                    },
+                    1 => {
+                        let id = 2 + src.below(8) as u8;
+                        cur.remove(&id);
+                    },
+                    2 => {
+                        // a whole data centre disappears
+                        let dc = src.below(3);
+                        cur.retain(|_, d| *d != dc);
+                    },
+                    _ => cur.clear(),
+                }
+                steps.push(Step::Members(cur.clone()));
+            } else {
+                steps.push(Step::Select(src.below(LEVELS.len())));
+            }
+        }
+        NodeCase { steps, seed: src.word() }
+    }
+
+    fn run(&self, case: &NodeCase) -> Outcome {
+        crate::e3::sim(case.seed, 70_000_000, BTreeMap::new(), |_net| run_node(case))
+    }
+
+    fn describe(&self, case: &NodeCase) -> Value {
+        json!(case
+            .steps
+            .iter()
+            .map(|s| match s {
+                Step::Members(m) => json!({"members(id->dc)": m}),
+                Step::Select(l) => json!({"select": format!("{:?}", LEVELS[*l])}),
+            })
+            .collect::<Vec<_>>())
+    }
+
+    fn rule(&self) -> &'static str {
+        "one real DatacakeNode (id 1, dc-0): 2-15 steps, each either a membership snapshot over ids 2-9 in 3 data \
+         centres (nodes join, a node leaves, a whole data centre leaves, everybody leaves) published via hook \
+         H-members, or DatacakeNode::select_nodes with a generated level (selector actor, cursors and result cache \
+         included); oracle: the same validity predicate as part `selector`, judged against the snapshot current at \
+         the time of the call; non-trivial = a selection after a snapshot that removed a node or a data centre"
+    }
+}
+
+async fn run_node(case: &NodeCase) -> Outcome {
+    use datacake_node::{ClusterMember, ConnectionConfig, DatacakeNodeBuilder};
+    let me = node_addr(1);
+    let cfg = ConnectionConfig::new(me, me, Vec::<String>::new());
+    let node = DatacakeNodeBuilder::<DCAwareSelector>::new(1, cfg).with_data_center("dc-0").connect().await.expect("connect");
+    tokio::time::sleep(std::time::Duration::from_millis(10)).await;
+    let mut layout: Layout = Layout::new();
+    layout.insert("dc-0".into(), vec![me]);
+    let mut removed_something = false;
+    let mut after_removal = false;
+    let mut prev: BTreeMap<u8, usize> = BTreeMap::new();
+    for (i, step) in case.steps.iter().enumerate() {
+        match step {
+            Step::Members(m) => {
+                let mut members: Vec<ClusterMember> =
+                    m.iter().map(|(id, dc)| ClusterMember::new(*id, node_addr(*id), format!("dc-{dc}"))).collect();
+                members.push(ClusterMember::new(1, me, "dc-0".to_string()));
+                node.verif_set_members(members);
+                tokio::time::sleep(std::time::Duration::from_millis(1)).await;
+                layout = Layout::new();
+                layout.entry("dc-0".into()).or_default().push(me);
+                for (id, dc) in m {
+                    layout.entry(format!("dc-{dc}")).or_default().push(node_addr(*id));
+                }
+                if prev.keys().any(|k| !m.contains_key(k)) {
+                    removed_something = true;
+                }
+                prev = m.clone();
+            },
+            Step::Select(l) => {
+                let res = node.select_nodes(LEVELS[*l]).await;
+                judge(LEVELS[*l], &layout, me, "dc-0", &res, &format!("step {i}"))?;
+                if removed_something {
+                    after_removal = true;
+                }
+            },
+        }
+    }
+    node.shutdown().await;
+    let mut labels = vec![];
+    if after_removal {
+        labels.push("selection_after_departure");
+    }
+    Ok(Pass { nontrivial: after_removal, labels })
+}
+
+pub fn parts_all() -> Vec<Box<dyn DynPart>> {
+    vec![
+        Box::new(Gen::new(Selector, 300_000, 30_000_000)),
+        Box::new(Gen::new(NodePart, 20_000, 1_000_000)),
+    ]
+}
